@@ -335,6 +335,8 @@ structure St where
   consumers : List (Nat × SdkCons) := []
   /-- high-level clients on which a consumer was dropped while its poll request was in flight -/
   outOfStep : List Nat := []
+  /-- connections that use the HTTP transport (`conn <c> http`) -/
+  httpConns : List Nat := []
   /-- identities used by SDK consumers: (partition, consumer id) ↦ (highest offset yielded so far by any
   incarnation, some incarnation commits on polling) -/
   sdkIds : List ((PKey × Nat) × (Option Nat × Bool)) := []
@@ -565,13 +567,17 @@ def retentionCheck (st : St) (effs : List Effect) : List String :=
 /-- C08 oracles on the implementation's own `group` answer `ok id:name:n:m m1=p+p,m2=…`: with at least
 one member every partition 1..n is in exactly one share, shares hold only existing partitions and
 differ in size by at most one -/
-def groupCheck (st : St) (impl : String) : List String :=
+def groupCheck (st : St) (impl : String) (topicParts : Option Nat := none) : List String :=
   match impl.splitOn " " with
   | "ok" :: hd :: rest =>
     match hd.splitOn ":" with
     | [_, _, n, m] =>
       match n.toNat?, m.toNat? with
-      | some n, some m =>
+      | some n0, some m =>
+        -- the partitions a group divides are the topic's partitions (specification state), whatever count
+        -- the group itself reports
+        let n := topicParts.getD n0
+        (if n0 != n then [s!"SPEC-VIOL {st.line} class=group-partitions the group reports {n0} partitions, the topic has {n}, impl={impl}"] else []) ++
         let shares : List (List Nat) := if m = 0 then [] else
           ((rest.headD "").splitOn ",").map (fun e => (((e.splitOn "=").getD 1 "").splitOn "+").filterMap (·.toNat?))
         if m = 0 then [] else
@@ -1114,7 +1120,12 @@ def stepLine (st : St) (raw : String) : St × List String :=
   if let some r := sdkLine st toks opS.trimAscii.toString implS then (r.1, msgs0 ++ r.2) else
   match parseAOp st.enc toks (implS.splitOn " ") with
   | none =>                                -- not modelled (connection handling, ls, scan, …)
-    if toks.headD "" == "ls" then
+    if toks.headD "" == "conn" then
+      let c := (toks.getD 1 "").toNat?.getD 0
+      let st := if toks.getD 2 "tcp" == "http" then { st with httpConns := c :: st.httpConns, cov := bump st.cov "op:conn-http" }
+                else { st with httpConns := st.httpConns.filter (· ≠ c) }
+      (st, msgs0)
+    else if toks.headD "" == "ls" then
       let v := if st.relaxed then [] else sizeVsFiles st implS
       ({ st with specViol := st.specViol + v.length }, msgs0 ++ v)
     else if toks.headD "" == "hold" then ({ st with held := true, settled := !st.nowait, cov := bump st.cov "op:hold" }, msgs0)
@@ -1213,7 +1224,15 @@ def stepLine (st : St) (raw : String) : St × List String :=
       | .created .. => "part-created" | .deleted .. => "part-deleted" | .appended .. => "appended"
       | .purged .. => "purged" | .dropped .. => "retention-dropped" | .restarted .. => "part-restarted"
       | .setExpiry .. => "expiry-set" | .offStored .. => "offset-stored" | .offDeleted .. => "offset-deleted"))) cov
-    let msgs1 := if mtxt == itxt || (relaxedPoll && pollPrefixOk mtxt itxt) then [] else
+    -- HTTP: an error travels as a status code (the SDK reports `http_response_error`), and a read of
+    -- something that is not there or not permitted is a 404/403 where the binary protocol answers "none"
+    let viaHttp := st.httpConns.contains ((toks.getD 1 "").toNat?.getD 1000000)
+    let noData (x : String) : Bool := x.startsWith "err" || x == "ok none"
+    -- an error over HTTP has no name: downstream oracles see the model's name for it
+    let itxt := if viaHttp && mtxt.startsWith "err" && itxt.startsWith "err" then mtxt else itxt
+    let httpSame := viaHttp && ((mtxt.startsWith "err" && itxt.startsWith "err") || (noData mtxt && noData itxt &&
+      ["stream", "topic", "group", "user", "get-offset", "topics", "groups"].contains (toks.headD "")))
+    let msgs1 := if mtxt == itxt || httpSame || (relaxedPoll && pollPrefixOk mtxt itxt) then [] else
       [s!"CORR-DIFF {st.line} kind={diffKind toks mtxt itxt} op={opS.trimAscii.toString} model={mtxt} impl={itxt}"]
     let extra : List String :=
       authzCheck st aop opS.trimAscii.toString itxt ++ gateCheck st op itxt ++ retentionCheck st effs ++
@@ -1221,7 +1240,11 @@ def stepLine (st : St) (raw : String) : St × List String :=
         | .topicInfo si _ => (match st.sys.findStream si with
             | .ok s => figuresCheck st s.id itxt
             | .error _ => [])
-        | .groupInfo .. => groupCheck st itxt
+        | .groupInfo si ti .. =>
+          let np : Option Nat := match st.sys.findStream si with
+            | .ok s => (match s.findTopic ti with | .ok t => some t.parts.length | .error _ => none)
+            | .error _ => none
+          groupCheck st itxt np
         | _ => [])
     let isMut := !(toks.headD "" == "poll" && toks.getLast? == some "0") &&
       !(["topic", "stats", "get-offset", "clock", "streams", "stream", "topics", "groups", "group", "me"].contains (toks.headD ""))
@@ -1232,7 +1255,10 @@ def stepLine (st : St) (raw : String) : St × List String :=
           | _, _ => lastTopic)
       | _ => lastTopic
     let sv := match specCheck st op itxt with
-      | some (cls, exp) => if relaxedPoll && pollPrefixOk exp itxt then none else some (cls, exp)
+      | some (cls, exp) =>
+        if relaxedPoll && pollPrefixOk exp itxt then none
+        else if viaHttp && noData exp && noData itxt then none
+        else some (cls, exp)
       | none => none
     let msgs2 := match sv with
       | none => []
@@ -1353,8 +1379,15 @@ def judgeImage (before after : St) (b : ImageBlock) (dataOp : Bool) : List Strin
               let expectOff := match r.getLast? with
                 | some l => msgOff l + 1
                 | none => msgOff new     -- nothing recovered: no constraint from R
+              -- the id of the message that was sent after the recovery, and what the poll before it returned
+              let sentId : String := (((((parsed.getD (i - 1) ("", "")).1.splitOn " ").filter (· ≠ "")).getLast?.getD "").splitOn ":").headD ""
+              let newId : String := (new.splitOn ":").getD 1 ""
+              let beforeSend : List String := match pollMsgs (parsed.getD (i - 2) ("", "")).2 with
+                | some (_, l) => l
+                | none => []
               if (parsed.getD (i - 1) ("", "")).2 != "ok" then none
-              else if ms.isEmpty then some s!"SPEC-VIOL {b.opLine} class=crash-send-lost {hdr} partition={key.1}/{key.2.1}/{key.2.2} a message sent after recovery cannot be read"
+              else if ms.isEmpty || newId != sentId then some s!"SPEC-VIOL {b.opLine} class=crash-send-lost {hdr} partition={key.1}/{key.2.1}/{key.2.2} the message sent after recovery (id {sentId}) is not the last message served: {ms.map msgOff}"
+              else if i ≥ 2 && r != beforeSend then some s!"SPEC-VIOL {b.opLine} class=crash-send-changed-log {hdr} partition={key.1}/{key.2.1}/{key.2.2} before the send {beforeSend.map msgOff}, after it {ms.map msgOff}"
               else if msgOff new != expectOff || (r.map msgOff).any (· == msgOff new) then
                 some s!"SPEC-VIOL {b.opLine} class=crash-offset-reuse {hdr} partition={key.1}/{key.2.1}/{key.2.2} after recovery the next message got offset {msgOff new}, recovered={r.map msgOff}"
               else none
